@@ -116,15 +116,14 @@ func (r *reference) resolveRef(cfg *Config, opts *options) (value, error) {
 	var err Error
 
 	for {
-		var v value
-		cfg = cfgRoot(cfg)
-		if cfg == nil {
-			return nil, ErrMissing
-		}
-
-		v, err = r.Path.GetValue(cfg, opts)
-		if err == nil && v != nil {
-			return v, nil
+		// a nil configuration (Env(nil)) has nothing to offer: go on with the
+		// next environment
+		if cfg = cfgRoot(cfg); cfg != nil {
+			var v value
+			v, err = r.Path.GetValue(cfg, opts)
+			if err == nil && v != nil {
+				return v, nil
+			}
 		}
 
 		// not found in this configuration (the path does not exist, or only
